@@ -1121,6 +1121,18 @@ func (env *Env) specCall(sf *SpecFunc, args []Value, pol int) Value {
 				cfail("spec %s: reads %s: no such ghost variable", sf.Name, rk)
 			}
 			keys = []string{regKey("GH:"+g.Name, eng.ghostSort(g))}
+		} else if strings.HasPrefix(rk, "map(") && strings.HasSuffix(rk, ")") {
+			// the contents (domain and values) of every map of that type
+			mt, err := eng.parseType(rk[4:len(rk)-1], specPkg)
+			if err != nil {
+				cfail("spec %s: reads %s: %v", sf.Name, rk, err)
+			}
+			m, ok := mt.Underlying().(*types.Map)
+			if !ok {
+				cfail("spec %s: reads %s: not a map type", sf.Name, rk)
+			}
+			d, _, vs := mapKeys(m)
+			keys = append([]string{d}, vs...)
 		} else if strings.HasPrefix(rk, "elems(") && strings.HasSuffix(rk, ")") {
 			// elems(p) for a slice parameter p: only the backing array of p
 			isParam := false
